@@ -179,7 +179,38 @@ theorem phase_step (cfg : Cfg) (g : G) (msg : String) (tb : Option String) (ch :
     show handleGitAutomation isXvcPath cfg g1 msg tb hookOk = _
     simp [handleGitAutomation, hu, ha]
   rw [ho] at hok ⊢
-  exact ⟨hac.2.1, fun p hp => hac.2.2 hok p ((hinv hu ha).2 p hp)⟩
+  exact ⟨hac.2.1, fun p hp => hac.2.2 p ((hinv hu ha).2 p hp)⟩
+
+theorem runPhases_kept (cfg : Cfg) (msg : String) (tb : Option String) (g : G)
+    (phases : List (Change × Bool))
+    (hinv : cfg.useGit = true → cfg.autoCommit = true → Inv g)
+    (hc : ∀ ph ∈ phases, Confined ph.1) :
+    (runPhases isXvcPath cfg msg tb g phases).status ≠ .outside ∧
+    UserStateKept tb g (runPhases isXvcPath cfg msg tb g phases).g := by
+  induction phases generalizing g with
+  | nil => exact ⟨by simp [runPhases], UserStateKept.refl' tb g⟩
+  | cons ph rest ih =>
+    obtain ⟨ch, hookOk⟩ := ph
+    have hstep := phase_step cfg g msg tb ch hookOk hinv (hc (ch, hookOk) (List.mem_cons_self ..))
+    simp only at hstep
+    unfold runPhases
+    simp only
+    by_cases hok : (handleGitAutomation isXvcPath cfg { g with wt := g.wt.apply ch } msg tb hookOk).status = .ok
+    · rw [if_pos hok]
+      have := ih _ (hstep.2.2 hok) (fun x hx => hc x (List.mem_cons_of_mem _ hx))
+      exact ⟨this.1, hstep.2.1.trans this.2⟩
+    · rw [if_neg hok]
+      exact ⟨hstep.1, hstep.2.1⟩
+
+theorem foldl_apply_user (phs : List (Change × Bool)) (t : Tree) (hcs : ∀ ph ∈ phs, Confined ph.1)
+    (p : Path) (hp : isXvcPath p = false) :
+    (phs.foldl (fun t ph => t.apply ph.1) t).find? p = t.find? p := by
+  induction phs generalizing t with
+  | nil => rfl
+  | cons ph phs ih =>
+    simp only [List.foldl_cons]
+    rw [ih _ (fun x hx => hcs x (List.mem_cons_of_mem _ hx))]
+    exact find?_apply_user t ph.1 (hcs ph (List.mem_cons_self ..)) p hp
 
 /-- **C15, whole command.**  For every number of `handle_git_automation` calls (2 for ordinary
     commands, 3 for `xvc init`), every xvc-side change set before each of them that is confined to
@@ -192,40 +223,62 @@ theorem C15_command (cfg : Cfg) (skipGit : Bool) (msg : String) (tb : Option Str
     (hc : ∀ ph ∈ phases, Confined ph.1) :
     (xvcCommand isXvcPath cfg skipGit msg tb g phases).status ≠ .outside ∧
     UserStateKept tb g (xvcCommand isXvcPath cfg skipGit msg tb g phases).g := by
-  unfold xvcCommand
-  by_cases hs : skipGit = true
-  · simp only [hs, if_true]
-    refine ⟨by simp, ?_⟩
-    have hwt : ∀ (phs : List (Change × Bool)) (t : Tree), (∀ ph ∈ phs, Confined ph.1) →
-        ∀ p, isXvcPath p = false → (phs.foldl (fun t ph => t.apply ph.1) t).find? p = t.find? p := by
-      intro phs
-      induction phs with
-      | nil => intro t _ p _; rfl
-      | cons ph phs ih =>
-        intro t hcs p hp
-        simp only [List.foldl_cons]
-        rw [ih _ (fun x hx => hcs x (List.mem_cons_of_mem _ hx)) p hp]
-        exact find?_apply_user t ph.1 (hcs ph (List.mem_cons_self ..)) p hp
-    exact ⟨fun p hp => hwt phases g.wt hc p hp, fun _ _ => rfl, fun _ _ => rfl, rfl,
+  cases skipGit with
+  | true =>
+    simp only [xvcCommand, if_true]
+    exact ⟨by simp, fun p hp => foldl_apply_user phases g.wt hc p hp, fun _ _ => rfl, fun _ _ => rfl, rfl,
            Or.inl (Head.same_refl _), fun _ _ _ => rfl, ⟨[], by simp, by simp⟩⟩
-  · have hs' : skipGit = false := by cases skipGit <;> simp_all
-    simp only [hs, if_false]
-    have hinv' := hinv hs'
-    clear hinv
-    induction phases generalizing g with
-    | nil => exact ⟨by simp [runPhases], UserStateKept.refl' tb g⟩
-    | cons ph rest ih =>
-      obtain ⟨ch, hookOk⟩ := ph
-      have hstep := phase_step cfg g msg tb ch hookOk hinv' (hc (ch, hookOk) (List.mem_cons_self ..))
-      simp only at hstep
-      unfold runPhases
-      simp only
-      by_cases hok : (handleGitAutomation isXvcPath cfg { g with wt := g.wt.apply ch } msg tb hookOk).status = .ok
-      · simp only [hok, if_true]
-        have := ih _ (fun x hx => hc x (List.mem_cons_of_mem _ hx)) (hstep.2.2 hok)
-        exact ⟨this.1, hstep.2.1.trans this.2⟩
-      · simp only [hok, if_false]
-        exact ⟨hstep.1, hstep.2.1⟩
+  | false =>
+    simp only [xvcCommand, Bool.false_eq_true, if_false]
+    exact runPhases_kept cfg msg tb g phases (hinv rfl) hc
+
+theorem foldl_apply_nil (phs : List (Change × Bool)) (t : Tree) (h : ∀ ph ∈ phs, ph.1 = []) :
+    phs.foldl (fun t ph => t.apply ph.1) t = t := by
+  induction phs generalizing t with
+  | nil => rfl
+  | cons ph phs ih =>
+    simp only [List.foldl_cons]
+    rw [h ph (List.mem_cons_self ..)]
+    exact ih _ (fun x hx => h x (List.mem_cons_of_mem _ hx))
+
+theorem SameState.refl' (tb : Option String) (g : G) : SameState tb g g :=
+  ⟨rfl, fun _ => rfl, fun _ => rfl, rfl, rfl, fun _ => rfl, fun _ _ => rfl⟩
+
+theorem runPhases_readonly (cfg : Cfg) (msg : String) (g : G) (phases : List (Change × Bool))
+    (hfrag : cfg.useGit = true → cfg.autoCommit = true → NoMixed g)
+    (hnothing : ∀ p, isXvcPath p = true → g.wt.find? p = g.index.find? p)
+    (hro : ∀ ph ∈ phases, ph.1 = []) :
+    SameState none g (runPhases isXvcPath cfg msg none g phases).g := by
+  induction phases generalizing g with
+  | nil => exact SameState.refl' none g
+  | cons ph rest ih =>
+    obtain ⟨ch, hookOk⟩ := ph
+    have hch : ch = [] := hro (ch, hookOk) (List.mem_cons_self ..)
+    subst hch
+    unfold runPhases
+    simp only
+    have hg : ({ g with wt := g.wt.apply [] } : G) = g := rfl
+    rw [hg]
+    have h1 := C15_readonly_no_commit cfg g msg none hookOk hfrag hnothing
+    by_cases hok : (handleGitAutomation isXvcPath cfg g msg none hookOk).status = .ok
+    · rw [if_pos hok]
+      have hfrag' : cfg.useGit = true → cfg.autoCommit = true →
+          NoMixed (handleGitAutomation isXvcPath cfg g msg none hookOk).g := by
+        intro hu ha p hp
+        rw [h1.headTree, h1.index] at hp
+        rw [h1.wt, h1.index]
+        exact hfrag hu ha p hp
+      have hnothing' : ∀ p, isXvcPath p = true →
+          (handleGitAutomation isXvcPath cfg g msg none hookOk).g.wt.find? p =
+          (handleGitAutomation isXvcPath cfg g msg none hookOk).g.index.find? p := by
+        intro p hp; rw [h1.wt, h1.index]; exact hnothing p hp
+      have h2 := ih _ hfrag' hnothing' (fun x hx => hro x (List.mem_cons_of_mem _ hx))
+      exact ⟨by rw [h2.commits, h1.commits], fun p => by rw [h2.index, h1.index],
+             fun p => by rw [h2.wt, h1.wt], by rw [h2.stash, h1.stash],
+             by rw [h2.headTree, h1.headTree], fun _ => by rw [h2.head rfl, h1.head rfl],
+             fun _ r => by rw [h2.refs rfl r, h1.refs rfl r]⟩
+    · rw [if_neg hok]
+      exact h1
 
 /-- **C15, read-only command.**  A command that writes nothing (every phase has an empty change
     set), run in a repository without pending changes on xvc paths, creates no commit however many
@@ -237,53 +290,36 @@ theorem C15_command_readonly (cfg : Cfg) (skipGit : Bool) (msg : String) (g : G)
     (hnothing : ∀ p, isXvcPath p = true → g.wt.find? p = g.index.find? p)
     (hro : ∀ ph ∈ phases, ph.1 = []) :
     SameState none g (xvcCommand isXvcPath cfg skipGit msg none g phases).g := by
-  unfold xvcCommand
-  by_cases hs : skipGit = true
-  · simp only [hs, if_true]
-    have hwt : ∀ (phs : List (Change × Bool)) (t : Tree), (∀ ph ∈ phs, ph.1 = []) →
-        phs.foldl (fun t ph => t.apply ph.1) t = t := by
-      intro phs
-      induction phs with
-      | nil => intro t _; rfl
-      | cons ph phs ih =>
-        intro t h
-        simp only [List.foldl_cons]
-        rw [h ph (List.mem_cons_self ..)]
-        exact ih _ (fun x hx => h x (List.mem_cons_of_mem _ hx))
-    rw [hwt phases g.wt hro]
-    exact ⟨rfl, fun _ => rfl, fun _ => rfl, rfl, rfl, fun _ => rfl, fun _ _ => rfl⟩
-  · simp only [hs, if_false]
-    induction phases generalizing g with
-    | nil => exact ⟨rfl, fun _ => rfl, fun _ => rfl, rfl, rfl, fun _ => rfl, fun _ _ => rfl⟩
-    | cons ph rest ih =>
-      obtain ⟨ch, hookOk⟩ := ph
-      have hch : ch = [] := hro (ch, hookOk) (List.mem_cons_self ..)
-      subst hch
-      unfold runPhases
-      simp only
-      have hg : ({ g with wt := g.wt.apply [] } : G) = g := rfl
-      rw [hg]
-      have h1 := C15_readonly_no_commit cfg g msg none hookOk hfrag hnothing
-      by_cases hok : (handleGitAutomation isXvcPath cfg g msg none hookOk).status = .ok
-      · simp only [hok, if_true]
-        have hf := handle_facts isXvcPath cfg g msg none hookOk hfrag
-        have hfrag' : cfg.useGit = true → cfg.autoCommit = true →
-            NoMixed (handleGitAutomation isXvcPath cfg g msg none hookOk).g := by
-          intro hu ha p hp
-          rw [h1.headTree, h1.index] at hp
-          rw [h1.wt, h1.index]
-          exact hfrag hu ha p hp
-        have hnothing' : ∀ p, isXvcPath p = true →
-            (handleGitAutomation isXvcPath cfg g msg none hookOk).g.wt.find? p =
-            (handleGitAutomation isXvcPath cfg g msg none hookOk).g.index.find? p := by
-          intro p hp; rw [h1.wt, h1.index]; exact hnothing p hp
-        have h2 := ih _ hfrag' hnothing' (fun x hx => hro x (List.mem_cons_of_mem _ hx))
-        exact ⟨by rw [h2.commits, h1.commits], fun p => by rw [h2.index, h1.index],
-               fun p => by rw [h2.wt, h1.wt], by rw [h2.stash, h1.stash],
-               by rw [h2.headTree, h1.headTree], fun _ => by rw [h2.head rfl, h1.head rfl],
-               fun _ r => by rw [h2.refs rfl r, h1.refs rfl r]⟩
-      · simp only [hok, if_false]
-        exact h1
+  cases skipGit with
+  | true =>
+    simp only [xvcCommand, if_true]
+    rw [foldl_apply_nil phases g.wt hro]
+    exact SameState.refl' none g
+  | false =>
+    simp only [xvcCommand, Bool.false_eq_true, if_false]
+    exact runPhases_readonly cfg msg g phases hfrag hnothing hro
+
+theorem runPhases_off (cfg : Cfg) (msg : String) (tb : Option String) (g : G)
+    (phases : List (Change × Bool))
+    (hoff : cfg.useGit = false ∨ (cfg.autoCommit = false ∧ cfg.autoStage = false)) :
+    (runPhases isXvcPath cfg msg tb g phases).status = .ok ∧
+    (runPhases isXvcPath cfg msg tb g phases).g.index = g.index ∧
+    (runPhases isXvcPath cfg msg tb g phases).g.commits = g.commits ∧
+    (runPhases isXvcPath cfg msg tb g phases).g.refs = g.refs ∧
+    (runPhases isXvcPath cfg msg tb g phases).g.head = g.head ∧
+    (runPhases isXvcPath cfg msg tb g phases).g.stash = g.stash := by
+  have hcall : ∀ g1 hk, handleGitAutomation isXvcPath cfg g1 msg tb hk = ⟨g1, .ok⟩ := by
+    intro g1 hk
+    unfold handleGitAutomation
+    rcases hoff with h | ⟨h1, h2⟩
+    · simp [h]
+    · simp [h1, h2]
+  induction phases generalizing g with
+  | nil => simp [runPhases]
+  | cons ph rest ih =>
+    unfold runPhases
+    simp only [hcall, if_true]
+    exact ih _
 
 /-- **C15, git switched off.**  With `--skip-git`, `git.use_git = false`, or both automations off,
     nothing but the command's own writes happens: index, commits, refs, branch and stash are
@@ -291,31 +327,19 @@ theorem C15_command_readonly (cfg : Cfg) (skipGit : Bool) (msg : String) (g : G)
 theorem C15_no_git (cfg : Cfg) (skipGit : Bool) (msg : String) (tb : Option String) (g : G)
     (phases : List (Change × Bool))
     (hoff : skipGit = true ∨ cfg.useGit = false ∨ (cfg.autoCommit = false ∧ cfg.autoStage = false)) :
-    let o := xvcCommand isXvcPath cfg skipGit msg tb g phases
-    o.status = .ok ∧ o.g.index = g.index ∧ o.g.commits = g.commits ∧ o.g.refs = g.refs ∧
-    o.g.head = g.head ∧ o.g.stash = g.stash := by
-  intro o
-  show (xvcCommand isXvcPath cfg skipGit msg tb g phases).status = .ok ∧ _
-  unfold xvcCommand
-  by_cases hs : skipGit = true
-  · simp [hs]
-  · have hoff' : cfg.useGit = false ∨ (cfg.autoCommit = false ∧ cfg.autoStage = false) := by
-      rcases hoff with h | h
-      · exact absurd h hs
-      · exact h
-    simp only [hs, if_false]
-    have hcall : ∀ g1 hk, handleGitAutomation isXvcPath cfg g1 msg tb hk = ⟨g1, .ok⟩ := by
-      intro g1 hk
-      unfold handleGitAutomation
-      rcases hoff' with h | ⟨h1, h2⟩
-      · simp [h]
-      · simp [h1, h2]
-    induction phases generalizing g with
-    | nil => simp [runPhases]
-    | cons ph rest ih =>
-      unfold runPhases
-      simp only [hcall, if_true]
-      exact ih _
+    (xvcCommand isXvcPath cfg skipGit msg tb g phases).status = .ok ∧
+    (xvcCommand isXvcPath cfg skipGit msg tb g phases).g.index = g.index ∧
+    (xvcCommand isXvcPath cfg skipGit msg tb g phases).g.commits = g.commits ∧
+    (xvcCommand isXvcPath cfg skipGit msg tb g phases).g.refs = g.refs ∧
+    (xvcCommand isXvcPath cfg skipGit msg tb g phases).g.head = g.head ∧
+    (xvcCommand isXvcPath cfg skipGit msg tb g phases).g.stash = g.stash := by
+  cases skipGit with
+  | true => simp [xvcCommand]
+  | false =>
+    simp only [xvcCommand, Bool.false_eq_true, if_false]
+    rcases hoff with h | h
+    · cases h
+    · exact runPhases_off cfg msg tb g phases h
 
 /-- **C15, `auto_stage`.**  With `git.auto_commit = false`, `git.auto_stage = true` one call only
     runs `git add` on xvc paths: no commit, no stash, no branch or ref change, user index entries
@@ -335,4 +359,149 @@ theorem C15_auto_stage (g : G) (msg : String) (tb : Option String) (hookOk : Boo
   · intro p hp; rw [addState_index]; simp [hp]
   · intro p hp; rw [addState_index]; simp [hp]
 
+/-! ## non-vacuity: a concrete, busy user state inside the fragment -/
+
+/-- HEAD tree of the example: four user files, xvc's files -/
+def exHead : Tree :=
+  [(["t.txt"], "t1"), (["m.txt"], "m1"), (["del.txt"], "d1"), (["dir", "a.txt"], "a1"),
+   ([".gitignore"], "gi0"), ([".xvc", "config.toml"], "c0")]
+
+/-- staged modification (`m.txt`), staged new file (`new.txt`), staged deletion (`del.txt`), unstaged
+    edit (`t.txt`), unstaged deletion (`dir/a.txt`), untracked files (one of them named like an
+    ignore file), one stash entry of the user's, a second branch, and xvc's own fresh writes
+    (`.gitignore`, `.xvc/store/a.json`). -/
+def exState : G :=
+  { commits := [⟨exHead, none, "root"⟩]
+    refs := [("main", 0), ("other", 0)]
+    head := .branch "main"
+    index := [(["t.txt"], "t1"), (["m.txt"], "m2"), (["new.txt"], "n1"), (["dir", "a.txt"], "a1"),
+              ([".gitignore"], "gi0"), ([".xvc", "config.toml"], "c0")]
+    wt := [(["t.txt"], "t1-edited"), (["m.txt"], "m2"), (["new.txt"], "n1"), (["untracked.txt"], "u1"),
+           (["notes.gitignore"], "user-notes"), ([".gitignore"], "gi1"), ([".xvc", "config.toml"], "c0"),
+           ([".xvc", "store", "a.json"], "s1")]
+    stash := [⟨"user", [], [(["old.txt"], "o")]⟩] }
+
+example : NoMixed exState := (noMixedB_iff _).mp (by decide)
+example : diffCached exState ≠ [] := by decide
+/-- the hypotheses of `C15_user_paths_untouched` hold for it with the default settings … -/
+example : (⟨true, true, false⟩ : Cfg).useGit = true → (⟨true, true, false⟩ : Cfg).autoCommit = true → NoMixed exState :=
+  fun _ _ => (noMixedB_iff _).mp (by decide)
+/-- … and the call really commits (the theorem is not about a no-op): one new commit on `main`,
+    containing xvc's two files and none of the user's six pending changes, stash and index kept. -/
+example :
+    let o := handleGitAutomation isXvcPath ⟨true, true, false⟩ exState "m" none true
+    o.status = .ok ∧ o.g.commits.length = 2 ∧ lookupRef o.g.refs "main" = some 1 ∧
+    o.g.headTree.find? [".xvc", "store", "a.json"] = some "s1" ∧ o.g.headTree.find? [".gitignore"] = some "gi1" ∧
+    o.g.headTree.find? ["new.txt"] = none ∧ o.g.headTree.find? ["m.txt"] = some "m1" ∧
+    o.g.headTree.find? ["notes.gitignore"] = none ∧ o.g.headTree.find? ["del.txt"] = some "d1" ∧
+    o.g.index.find? ["new.txt"] = some "n1" ∧ o.g.index.find? ["m.txt"] = some "m2" ∧
+    o.g.index.find? ["del.txt"] = none ∧ o.g.wt.find? ["new.txt"] = some "n1" ∧
+    o.g.stash = exState.stash := by decide
+/-- the same on a detached HEAD, with `--to-branch`, and with a rejected commit -/
+example :
+    let o := handleGitAutomation isXvcPath ⟨true, true, false⟩ { exState with head := .detached 0 } "m" none true
+    o.status = .ok ∧ o.g.head = .detached 1 ∧ o.g.refs = exState.refs ∧ o.g.stash = exState.stash ∧
+    o.g.index.find? ["new.txt"] = some "n1" := by decide
+example :
+    let o := handleGitAutomation isXvcPath ⟨true, true, false⟩ exState "m" (some "feat") true
+    o.status = .ok ∧ o.g.head = .branch "feat" ∧ lookupRef o.g.refs "feat" = some 1 ∧
+    lookupRef o.g.refs "main" = some 0 ∧ o.g.stash = exState.stash := by decide
+example :
+    let o := handleGitAutomation isXvcPath ⟨true, true, false⟩ exState "m" (some "other") true
+    o.status = .gitError ∧ o.g.head = .branch "main" ∧ o.g.commits.length = 1 ∧ o.g.stash = exState.stash ∧
+    o.g.index.find? ["new.txt"] = some "n1" ∧ o.g.wt.find? ["new.txt"] = some "n1" := by decide
+example :
+    let o := handleGitAutomation isXvcPath ⟨true, true, false⟩ exState "m" none false
+    o.status = .gitError ∧ o.g.commits.length = 1 ∧ o.g.stash = exState.stash ∧
+    o.g.index.find? ["new.txt"] = some "n1" ∧ o.g.wt.find? ["new.txt"] = some "n1" := by decide
+/-- `Inv` (hypothesis of `C15_command`) is satisfiable by the same state -/
+example : Inv exState :=
+  ⟨(noMixedB_iff _).mp (by decide), fun p hp => by
+    have : ∀ q ∈ exState.headTree.keys ++ exState.index.keys, isXvcPath q = true →
+        exState.headTree.find? q = exState.index.find? q := by decide
+    by_cases h1 : p ∈ exState.headTree.keys ++ exState.index.keys
+    · exact this p h1 hp
+    · have h2 : ¬ (p ∈ exState.headTree.keys ∨ p ∈ exState.index.keys) := fun h => h1 (List.mem_append.mpr h)
+      rw [Tree.find?_none_of_not_mem_keys _ p (fun h => h2 (Or.inl h)),
+          Tree.find?_none_of_not_mem_keys _ p (fun h => h2 (Or.inr h))]⟩
+/-- a whole two-call command on it: confined change set, one commit, user state kept -/
+example : Confined [([".xvc", "ec", "1"], some "e"), (["data", ".gitignore"], some "g")] := by
+  unfold Confined; decide
+/-- a read-only situation (hypothesis of `C15_readonly_no_commit`): staged work, nothing pending on xvc paths -/
+def exReadonly : G := { exState with wt := [(["t.txt"], "t1-edited"), (["m.txt"], "m2"), (["new.txt"], "n1"),
+  (["untracked.txt"], "u1"), ([".gitignore"], "gi0"), ([".xvc", "config.toml"], "c0")] }
+example : NoMixed exReadonly := (noMixedB_iff _).mp (by decide)
+example : (gitAdd isXvcPath exReadonly).2 = [] := by decide
+
+/-! ## the code before the patches: concrete counterexamples (replayed on the real binary by
+    `lib/c15.py`, corpus cases 0–4 and 6–8) -/
+
+/-- F4: one staged new user file, nothing else; default settings; a command that writes nothing. -/
+def f4State : G :=
+  { commits := [⟨[(["t.txt"], "t1"), ([".gitignore"], "gi0")], none, "root"⟩]
+    refs := [("main", 0)]
+    head := .branch "main"
+    index := [(["t.txt"], "t1"), ([".gitignore"], "gi0"), (["user.txt"], "u1")]
+    wt := [(["t.txt"], "t1"), ([".gitignore"], "gi0"), (["user.txt"], "u1")]
+    stash := [] }
+
+example : NoMixed f4State := (noMixedB_iff _).mp (by decide)
+
+/-- **F4, before C15-F4.patch**: `git_auto_commit` returns `Ok` ("No files to commit") before the
+    stash is popped: the user's staged file is gone from the index AND from the work tree and sits
+    in a new stash entry. -/
+theorem C15_readonly_counterexample_before_fix :
+    let o := gitAutoCommitOld isXvcPath f4State "m" none true
+    o.status = .ok ∧ o.g.stash ≠ f4State.stash ∧ o.g.index.find? ["user.txt"] = none ∧
+    o.g.wt.find? ["user.txt"] = none := by decide
+
+/-- the same input on the patched transcription: everything is as it was -/
+theorem C15_readonly_witness_after_fix :
+    let o := gitAutoCommit isXvcPath f4State "m" none true
+    o.status = .ok ∧ o.g.stash = f4State.stash ∧ o.g.index.find? ["user.txt"] = some "u1" ∧
+    o.g.wt.find? ["user.txt"] = some "u1" ∧ o.g.commits = f4State.commits := by decide
+
+/-- **F4 on the error paths, before the patch**: `--to-branch` naming an existing branch (what the
+    second `handle_git_automation` call of every `--to-branch` command does), and a rejected commit. -/
+theorem C15_error_path_counterexample_before_fix :
+    (gitAutoCommitOld isXvcPath { f4State with refs := [("main", 0), ("feat", 0)] } "m" (some "feat") true).g.stash ≠ [] ∧
+    (gitAutoCommitOld isXvcPath { f4State with wt := ([".xvc", "x"], "x1") :: f4State.wt } "m" none false).g.stash ≠ [] ∧
+    (gitAutoCommit isXvcPath { f4State with refs := [("main", 0), ("feat", 0)] } "m" (some "feat") true).g.stash = [] ∧
+    (gitAutoCommit isXvcPath { f4State with wt := ([".xvc", "x"], "x1") :: f4State.wt } "m" none false).g.stash = [] := by
+  decide
+
+/-- **pathspec, before C15-pathspec.patch**: `*.gitignore` also matches the user's untracked
+    `notes.gitignore`, which ends up in xvc's commit; with the exact-name pathspec it does not. -/
+theorem C15_pathspec_counterexample_before_fix :
+    let g : G := { f4State with index := f4State.headTree,
+                                wt := [(["t.txt"], "t1"), ([".gitignore"], "gi1"), (["notes.gitignore"], "mine")] }
+    isXvcPath ["notes.gitignore"] = false ∧
+    (handleGitAutomation oldSpec ⟨true, true, false⟩ g "m" none true).g.headTree.find? ["notes.gitignore"] = some "mine" ∧
+    (handleGitAutomation isXvcPath ⟨true, true, false⟩ g "m" none true).g.headTree.find? ["notes.gitignore"] = none ∧
+    (handleGitAutomation isXvcPath ⟨true, true, false⟩ g "m" none true).g.headTree.find? [".gitignore"] = some "gi1" := by
+  decide
+
 end Git
+
+open Git in
+#print axioms C15_user_paths_untouched
+open Git in
+#print axioms C15_new_commit_on_top
+open Git in
+#print axioms C15_readonly_no_commit
+open Git in
+#print axioms C15_command
+open Git in
+#print axioms C15_command_readonly
+open Git in
+#print axioms C15_no_git
+open Git in
+#print axioms C15_auto_stage
+open Git in
+#print axioms C15_readonly_counterexample_before_fix
+open Git in
+#print axioms C15_readonly_witness_after_fix
+open Git in
+#print axioms C15_error_path_counterexample_before_fix
+open Git in
+#print axioms C15_pathspec_counterexample_before_fix
